@@ -2,4 +2,5 @@
 EXTENDS TopicsTrace
 MCTopicOrder == <<"t1", "t2">>
 MCIdOrder3 == <<"a", "b", "c">>
+MCIdOrder4 == <<"a", "agg", "b", "c">>
 =============================================================================
